@@ -156,7 +156,7 @@ func HarnessOpenDamaged() {
 		fs.Delete("d", name)
 		vrt.Reach("sealed-missing")
 	case 1: // truncated below its header
-		fs.Put(name, fs.Data(name)[:8*vrt.Choice("keep", 4)])
+		fs.Put(name, fs.Data(name)[:vrt.Choice("keep", 32)]) // every length 0..31
 		vrt.Reach("sealed-truncated")
 	case 2: // carries the header of a different segment
 		fs.Put(name, fs.Data(segment.FileName(segs[1])))
